@@ -656,9 +656,14 @@ def d2_apply(ctx, idx):
                     elif arg == pN and idx.unreviewed:
                         r_clamp.undecided(construct, 'no clamp found here; unreviewed helpers remain', where)
                     elif arg == pN:
+                        clamped = sorted(k for k, v in p.env.items() if v[0] == 'call' and v[1] == 'max' and set(v[2]) == {pN, ai.num(1)})
+                        extra = (' A clamped copy exists (`%s = max(%s, 1)`, used for the log and the note), but the schedule is called with '
+                                 'the raw %s.' % (clamped[0], N, N)) if clamped else ''
                         r_clamp.violation(construct, 'the attempt number reaches the schedule without the `< 1 -> 1` clamp: '
                                           'attempt 0 or a negative attempt is handed to the schedule (GeometricCredit then returns '
-                                          'factor**(attempt-1) > 1)', where, expected='if attempt_number < 1: attempt_number = 1')
+                                          'factor**(attempt-1) > 1, ReciprocalCredit divides by zero at attempt 0 - a ZeroDivisionError '
+                                          'outside the guarded grading call).%s' % extra, where,
+                                          expected='the schedule is called with the clamped attempt (attempts below 1 count as 1)')
                     else:
                         r_clamp.undecided(construct, 'argument of the schedule not recognised')
                     continue
@@ -1488,6 +1493,11 @@ MUTANTS = [
     Mutant('none-check-dropped', BASE, _NONE_BLOCK, "", 'D2'),
     Mutant('none-check-wrong-class', BASE, "            raise ConfigError(msg)\n\n        if attempt_number < 1:", "            raise ValueError(msg)\n\n        if attempt_number < 1:", 'D2'),
     Mutant('none-silent-full-credit', BASE, "            raise ConfigError(msg)\n\n        if attempt_number < 1:", "            return\n\n        if attempt_number < 1:", 'D2'),
+    Mutant('schedule-called-with-unclamped-attempt', BASE, [
+        ("        if attempt_number < 1:  # Just in case edX has issues\n            attempt_number = 1\n        self.log(\"Attempt number {}\".format(attempt_number))",
+         "        attempt = max(attempt_number, 1)\n        self.log(\"Attempt number {}\".format(attempt))"),
+        ("result[key] += msg.format(attempt_number, credit_decimal)", "result[key] += msg.format(attempt, credit_decimal)")], None, 'D2',
+           note='the clamped local is used for log and note, the schedule gets the raw attempt number'),
     Mutant('clamp-removed', BASE, "        if attempt_number < 1:  # Just in case edX has issues\n            attempt_number = 1\n", "", 'D2'),
     Mutant('clamp-threshold', BASE, "if attempt_number < 1:  # Just", "if attempt_number < 0:  # Just", 'D2'),
     Mutant('clamp-value', BASE, "            attempt_number = 1\n        self.log(\"Attempt", "            attempt_number = 0\n        self.log(\"Attempt", 'D2'),
@@ -1523,6 +1533,11 @@ MUTANTS = [
 ]
 
 BENIGN = [
+    Benign('clamped-local-used-everywhere', BASE, [
+        ("        if attempt_number < 1:  # Just in case edX has issues\n            attempt_number = 1\n        self.log(\"Attempt number {}\".format(attempt_number))",
+         "        attempt = max(attempt_number, 1)\n        self.log(\"Attempt number {}\".format(attempt))"),
+        ("credit = self.config['attempt_based_credit'](attempt_number)", "credit = self.config['attempt_based_credit'](attempt)"),
+        ("result[key] += msg.format(attempt_number, credit_decimal)", "result[key] += msg.format(attempt, credit_decimal)")], None),
     Benign('entries-and-message-key-picked-once', BASE, _TAIL_OLD, _TAIL_ENTRIES_AND_KEY_PICKED_ONCE),
     Benign('positive-validator-with-starred-bounds', 'mitxgraders/helpers/validatorfuncs.py',
            "    if thetype == int:\n        return All(thetype, Range(1, float('inf')))\n    else:\n        return All(thetype, Range(0, float('inf')), NotIn([0]))\n",
